@@ -45,6 +45,7 @@ type vState struct {
 	items   []lruItem
 	rd, ru  []int64 // independent roundings of sizeOnDisk / size
 	evicted []vEv
+	backlogAtUnlink []int64 // backlog counter observed when each file is being unlinked
 	cur0    int64
 	res0    int64
 	unc0    int64
@@ -64,7 +65,10 @@ func vPreInto(c *SizedLRU, n int, keys []string, legacy []bool) *vState {
 	st := &vState{n: n, keys: keys}
 	maxSize := vsym.Int64("max")
 	// NewSizedLRU only so that the metric fields are non-nil in native replays
-	*c = NewSizedLRU(maxSize, func(k string, v lruItem) { st.evicted = append(st.evicted, vEv{k, v}) }, 0)
+	*c = NewSizedLRU(maxSize, func(k string, v lruItem) {
+		st.evicted = append(st.evicted, vEv{k, v})
+		st.backlogAtUnlink = append(st.backlogAtUnlink, c.queuedEvictionsSize.Load())
+	}, 0)
 	st.c = c
 	vsym.Assume(c.maxSize > 0)
 	vsym.Assume(c.maxSize < vmaxSz)
@@ -113,6 +117,18 @@ func (st *vState) drain() {
 		c.queuedEvictionsChan <- q
 		c.performQueuedEvictions()
 	default:
+	}
+}
+
+// checkBacklogDuringUnlink: while a file is being deleted it still counts as
+// backlog (C17: "evicted-but-not-yet-deleted files").
+func (st *vState) checkBacklogDuringUnlink(tag string) {
+	rest := st.q0
+	for j := len(st.evicted) - 1; j >= 0; j-- {
+		rest += st.evicted[j].it.sizeOnDisk
+		if j < len(st.backlogAtUnlink) {
+			vsym.Assert(st.backlogAtUnlink[j] == rest, tag+"/C17-file-being-deleted-still-counts-as-backlog")
+		}
 	}
 }
 
